@@ -40,6 +40,10 @@ ASSUMPTIONS = ['A-REAL: floats are mathematical reals (native values are compare
                'numbers in the dictionaries / float nest parameters stay with the bounded translation validation',
                'ASSUMED (bounded stand-in C05:bounded:nests:...): NestsForNestedLogit.check_partition accepts only pairwise disjoint '
                'nests that do not meet `alone`',
+               'c05c_lng / c05c_nestsum / c05c_partition are functions of the nest objects and dictionaries read in the entry state of '
+               'the function under proof; caller and callee agree on them because no builder mutates its arguments (frame obligations); '
+               'the defining axioms of c05c_lng (choice functions nestof / posof: a conservative extension) are hypotheses of the named '
+               'lemma steps only (c05c_cut_with)',
                'products of two symbolic reals in get_mev_for_nested / lognested / nested are uninterpreted (commutative rmul): the '
                'obligations are equalities of terms; exp(-log s) = 1/s and exp(-inf) = 0 are not used']
 EXPLANATION = ('Deductive part: the log-logit kernel LogLogit.get_value (availability filter, log-sum-exp, unavailable chosen '
@@ -56,11 +60,14 @@ EXPLANATION = ('Deductive part: the log-logit kernel LogLogit.get_value (availab
                'models.loglogit, logmev, mev are proved to return a tree whose value is the textbook log-sum-exp kernel written with '
                'sum_range over the dictionaries (logit: exp of a log-logit node on the same dictionaries), get_mev_for_nested to return '
                'for every nest q and alternative i of it a tree of value (mu_q-1)V_i + (1/mu_q-1) log sum_{j in q, av_j != 0} exp(mu_q V_j) '
-               'and 0 for the alternatives left alone, and lognested / nested to compose (every alternative has a generating term).')
+               'and 0 for the alternatives left alone.  Round 3: models.lognested / nested are proved to return a tree whose value is ONE closed '
+               'form over util / availability / nests: the MEV kernel with h_k = V_k + c05c_lng(nests, util, av, k), where c05c_lng is '
+               'DEFINED (specs/c05c_specs.py) as the nested-logit term of the nest of k and 0 outside every nest; BiogemeError is raised '
+               'exactly when check_partition rejects the nests.')
 LEVEL_TEXT = ('Mixed: deductive proof (all inputs) for the log-logit kernel and the static exp-of-log obligations; the model builders '
               '(nested, cross-nested, MEV, ordered) are decided by shape-bounded translation validation on the real code, labelled '
               'bounded and never counted as proved.  Round 2: logit / loglogit / logmev / mev / get_mev_for_nested (and the composition '
-              'in lognested / nested) are additionally proved for all shapes as term equalities over uninterpreted exp / log; '
+              'in lognested / nested, with its closed form) are additionally proved for all shapes as term equalities over uninterpreted exp / log; '
               'cross-nested, the mu variants, ordered models and the numeric clauses (unit interval, sum to one, shift invariance) '
               'remain bounded.')
 LEVEL_NOTE = ('Trusted: pyvc, z3/cvc5, mpmath/sympy, the SEM table and the textbook formulas; bounded checks cover <= 4 alternatives, '
